@@ -10,7 +10,7 @@ PROP = dict(
     id="C16",
     level="proof",
     technique=("Lean 4 invariant + refinement theorems over an executable model of history.SearchHistory (add / save / load / clear over a "
-               "simulated file, encoding/json entering through a stated codec contract); translator facts for the default sizes and the "
+               "simulated file; encoding/json and the RFC 3339 text modelled by an executable codec whose round-trip laws are proved); translator facts for the default sizes and the "
                "max_size protection of Load; step-by-step differential correspondence with the real SearchHistory over a real file, "
                "including generated hostile file contents; independent monitor on the real outputs; CLI runs over pre-seeded hostile files"),
     level_text=("Kernel-checked theorems (WtfModel/Props/C16.lean) over a hand-written model of internal/history/history.go, for every requested "
@@ -18,7 +18,11 @@ PROP = dict(
                 "is positive and fixed, never more entries than that, timestamps non-decreasing, the entries are exactly the last `max` "
                 "elements of the unbounded reference log in which an immediately repeated query replaces its predecessor; an immediately "
                 "repeated query replaces the last entry; load after save gives back exactly the saved entries and maximum for any receiver "
-                "(valid UTF-8 strings; encoding/json's Marshal/Unmarshal round trip is the assumed contract `Codec.Laws`); recent = first "
+                "(over an abstract codec satisfying `Codec.LawsOn`; Props/C16b.lean PROVES those laws for the executable JSON codec of "
+                "Model/HistoryJson.lean - the reader / writer the driver runs against the real encoding/json on every check: unquote(quote b) = b "
+                "exactly for valid UTF-8 (validUtf8_iff), parseTime(fmtTime t) = t for calendar instants of the years 1..9999, and the parser "
+                "reads back every document Save writes, any number of entries, integers in Go's int range (parse_print_wf, fuel shown "
+                "sufficient) - so roundtrip_go / bounded_ordered_go / roundtrip_history_go carry no assumption about the codec); recent = first "
                 "sightings newest-first cut at the limit (distinct, sub-list of the newest-first listing, starts with the newest query); "
                 "top counts are true frequencies, sum to the entry count, sorted by count, for every order the Go map iteration / unstable "
                 "sort may produce; stats total/unique; and for EVERY history that also lets the environment put arbitrary content into the "
@@ -28,9 +32,10 @@ PROP = dict(
                 "that mirrors encoding/json's decoding of these structs, incl. case-folded and duplicate members, U+FFFD substitution, "
                 "int64 classification and strict RFC 3339 UTC timestamps)."),
     level_note=("Trusted / assumed: Lean kernel; axioms propext/Classical.choice/Quot.sound only; the translator facts (newDefault, loadGuard, "
-                "loadFallback, CLI literals, the decode-into-a-fresh-value shape of Load); encoding/json and time.Time (entered as `Codec`, laws "
-                "assumed: parse∘print = id, unquote∘quote = id on valid UTF-8, parseTime∘fmtTime = id) — exercised, not proved, by the "
-                "correspondence; the wall clock read by AddEntry is non-decreasing (checked on every real run by the monitor, never compared "
+                "loadFallback, CLI literals, the decode-into-a-fresh-value shape of Load); encoding/json and time.Time enter as the executable codec `goCodec` of Model/HistoryJson.lean, whose laws "
+                "(parse∘print = id on what Save writes, unquote∘quote = id on valid UTF-8, parseTime∘fmtTime = id on calendar instants) are "
+                "PROVED in Props/C16b.lean; that goCodec is what encoding/json and time.Time do is exercised, not proved, by the "
+                "correspondence (bytes written and values read are compared on every run); the wall clock read by AddEntry is non-decreasing (checked on every real run by the monitor, never compared "
                 "across runs); I/O failures of Save are C09's subject. Not claimed: round trip of strings that are not valid UTF-8 (encoding/json "
                 "substitutes U+FFFD; run and counted as `obs-invalid-utf8-roundtrip-changed`); a hand-made file holding more entries than its "
                 "max_size stays over-long until the next non-repeated add (counted as `obs-loadraw-more-entries-than-max`); zone offsets and "
@@ -41,17 +46,20 @@ PROP = dict(
           "valid documents with max_size in {0,-1,-3,1e9,missing,small,wrong type,overflow}, entries null / wrong type / missing / duplicated member, "
           "case-folded keys, wrong-typed and missing fields, hostile timestamps, truncated, binary, damaged), sizes {-3,-1,0,1,2,3,5,100}; a case is "
           "non-trivial if it contains a trim, an immediate duplicate, a load after a save, or a loadraw followed by an add; distinct = distinct op sequences"),
-    assumptions=["encoding/json Marshal/Unmarshal and time.Time RFC 3339 text round trip (Codec.Laws) for the save/load theorems",
+    assumptions=["the executable codec of Model/HistoryJson.lean is what encoding/json and time.Time do (its round-trip laws are proved; its agreement with the library is checked by correspondence)",
                  "the wall clock read by AddEntry is non-decreasing within a history (monitored on every real run)",
                  "queries and contexts are valid UTF-8 for the round-trip clause (the CLI's validation guarantees it)"],
     keep_prefix={"hist": 1},
-    trusted_extra=["encoding/json + time.Time text form as the contract Wtf.History.Codec.Laws (exercised by correspondence, not proved)"],
+    trusted_extra=["encoding/json + time.Time text form as modelled by Wtf.History.Json.goCodec (laws proved in Props/C16b.lean; agreement with the library exercised by correspondence)"],
 )
 
 THEOREMS = ["Wtf.C16." + t for t in (
     "gen_params_ok", "cli_max_positive", "bounded_ordered", "limit_is_requested", "immediate_dup", "add_new_appends", "roundtrip", "roundtrip_history",
     "recent", "recent_head", "top_sum", "top_any_schedule", "stats", "add_no_panic", "add_no_panic_after_any_file",
-    "raw_negative_max_panics", "raw_zero_max_drops", "unguarded_load_lets_file_break_add")]
+    "raw_negative_max_panics", "raw_zero_max_drops", "unguarded_load_lets_file_break_add",
+    # Props/C16b.lean: the save / load clauses for the modelled encoding/json, no codec assumption
+    "new_default_fits", "roundtrip_go", "invalid_string_changes", "bounded_ordered_go", "roundtrip_history_go")] + [
+    "Wtf.History.Json." + t for t in ("goCodec_lawsOn", "validUtf8_iff", "parse_print_wf", "parseTime_fmtTime_ok", "digitFacts")]
 
 ASSERTIONS = ["history:NewSearchHistory", "history:new-default", "history:new-stores-maxsize", "history:Load",
               "history:Load-decodes-into-fresh-value", "history:Load-receiver-untouched-before-error-check",
@@ -180,7 +188,7 @@ def run(ctx):
     os.makedirs(tmp, exist_ok=True)
     os.environ["TMPDIR"] = tmp
     ctx.stage_xlate(required_assertions=ASSERTIONS)
-    ctx.stage_prove(THEOREMS)
+    ctx.stage_prove(THEOREMS, extra_targets=["WtfModel.Props.C16b"])
     if not ctx.stage_build():
         return
     quick = ctx.tier == "quick"
